@@ -7,7 +7,7 @@
    toolchain (-Zunpretty=mir, overflow checks on) - the encoding is regenerated at every run;
 2. symbolically executes each kernel per operand-kind arm (mirsmt.py) into leaves (path condition, outcome);
 3. validates the translator: concrete operands from a boundary lattice go through the encoding (constants
-   substituted, simplified to a value) and through the real function (harness bin `numeval`, dev build); any
+   substituted, simplified to a value) and through the real function (crate smt/numeval, dev build); any
    disagreement makes the whole engine inconclusive (never a pass, never a violation);
 4. per query asserts the negated property over the leaves and asks z3 (python API) and cvc5 (SMT-LIB2 text of the
    same assertions); unsat from one and no contradiction from the other = holds for every operand value;
@@ -73,16 +73,27 @@ def dump_mir():
 
 
 def build_numeval():
+    """the real kernels, natively: a two-dependency crate (traits + data of the tree under check), dev and release"""
     outs = {}
+    crate = os.path.join(ROOT, "smt", "numeval")
+    toml = os.path.join(crate, "Cargo.toml")
+    t = open(toml).read()
+    t2 = re.sub(r'path = "[^"]*/(traits|data)"', lambda m: 'path = "%s/%s"' % (REPO, m.group(1)), t)
+    if t2 != t:
+        open(toml, "w").write(t2)
+    try:
+        shutil.copyfile(os.path.join(REPO, "Cargo.lock"), os.path.join(crate, "Cargo.lock"))
+    except OSError:
+        pass
     for prof, flag in (("dev", []), ("release", ["--release"])):
         env = dict(os.environ)
-        env["CARGO_TARGET_DIR"] = os.path.join(BUILD, "native_hook")
-        env["RUSTFLAGS"] = "--cfg garnish_verif"
+        env["CARGO_TARGET_DIR"] = os.path.join(BUILD, "numeval")
         env["CARGO_NET_OFFLINE"] = "true"
-        rc, out = sh(["cargo", "build", "--offline", "--bin", "numeval"] + flag, cwd=HARNESS_DIR, env=env, timeout=1500)
+        env.pop("RUSTFLAGS", None)
+        rc, out = sh(["cargo", "build", "--offline"] + flag, cwd=crate, env=env, timeout=1500)
         if rc != 0:
             raise RuntimeError("numeval build failed: " + out[-1500:])
-        outs[prof] = os.path.join(BUILD, "native_hook", "debug" if prof == "dev" else "release", "numeval")
+        outs[prof] = os.path.join(BUILD, "numeval", "debug" if prof == "dev" else "release", "gv_numeval")
     return outs
 
 
